@@ -83,7 +83,7 @@ Lemma rwith_tee w fs l sg :
   rwith w fs (LTee l) sg = let '(l', sg') := rwith_list w fs l sg in (PTee l', sg').
 Proof. reflexivity. Qed.
 
-Definition plog_list (ent : entry) (hi : bool) (w : Z) (fs : list sfld) :=
+Definition plog_list (ent : entry) (hi : lvq) (w : Z) (fs : list sfld) :=
   fix go (l : list pcore) (nn : bool) {struct l} : res :=
     match l with
     | [] => ([], [], nn)
@@ -93,7 +93,7 @@ Definition plog_list (ent : entry) (hi : bool) (w : Z) (fs : list sfld) :=
 Lemma plog_tee ent hi w fs l nn : plog ent hi w fs (PTee l) nn = plog_list ent hi w fs l nn.
 Proof. reflexivity. Qed.
 
-Definition swalk_list (m : marks) (hi : bool) (nm msg : bytes) (w : Z) (fs : list sfld) (ch : list pitem) :=
+Definition swalk_list (m : marks) (hi : lvq) (nm msg : bytes) (w : Z) (fs : list sfld) (ch : list pitem) :=
   fix go (l : list lcomp) (nn : bool) {struct l} : res :=
     match l with
     | [] => ([], [], nn)
@@ -104,7 +104,7 @@ Lemma swalk_tee m hi nm msg w fs l ch nn :
   swalk m hi nm msg w fs (LTee l) ch nn = swalk_list m hi nm msg w fs ch l nn.
 Proof. reflexivity. Qed.
 
-Definition rlog_list (ent : entry) (hi : bool) (w : Z) (fs : list sfld) :=
+Definition rlog_list (ent : entry) (hi : lvq) (w : Z) (fs : list sfld) :=
   fix go (l : list lcomp) (sg : store) (nn : bool) {struct l} : res * store :=
     match l with
     | [] => (([], [], nn), sg)
@@ -319,7 +319,9 @@ Proof.
 Qed.
 
 Lemma lvl_txt_nonnil hi : lvl_txt hi <> [].
-Proof. destruct hi; discriminate. Qed.
+Proof. unfold lvl_txt. destruct (hi <? 0)%Z, (hi =? 0)%Z, (hi =? 1)%Z; discriminate. Qed.
+Lemma lvl_txt_cons hi : exists b r, lvl_txt hi = b :: r.
+Proof. unfold lvl_txt. destruct (hi <? 0)%Z, (hi =? 0)%Z, (hi =? 1)%Z; eexists; eexists; reflexivity. Qed.
 
 Lemma console_leaf hi nm msg ctxs fs :
   forallb wf_flds ctxs = true -> wf_flds fs = true ->
@@ -337,12 +339,15 @@ Proof.
   unfold console_line, console_spec_line. rewrite Hcb. fold o.
   assert (Hcols : join (console_sep c07_cfg) (console_cols c07_cfg (mk_entry hi nm msg)) =
                   lvl_txt hi ++ (if is_nil nm then [] else [TAB] ++ nm)).
-  { destruct hi, nm as [|b r]; reflexivity. }
+  { destruct (lvl_txt_cons hi) as (b0 & r0 & E0).
+    unfold console_cols. cbn [c07_cfg k_level e_level k_time k_name k_caller k_function e_time e_name e_caller
+      mk_entry name caller_defined lvl_text time_zero is_nil negb andb senc_nil s_level s_logger app console_sep].
+    destruct nm as [|b r]; cbn [is_nil negb andb app join]; rewrite ?app_nil_r; reflexivity. }
   rewrite Hcols. change (k_message c07_cfg) with s_msg. change (k_stack c07_cfg) with (@nil byte).
   change (stack (mk_entry hi nm msg)) with (@nil byte). change (message (mk_entry hi nm msg)) with msg.
   change (resolved_le c07_cfg) with [NL]. unfold add_csep. change (console_sep c07_cfg) with [TAB].
   cbn [s_msg is_nil negb andb].
-  assert (Hne : forall x, is_nil (lvl_txt hi ++ x) = false) by (intros x; destruct hi; reflexivity).
+  assert (Hne : forall x, is_nil (lvl_txt hi ++ x) = false) by (intros x; destruct (lvl_txt_cons hi) as (b0 & r0 & ->); reflexivity).
   rewrite Hne.
   destruct (close o) as [|m0 ms] eqn:Ecl.
   - cbn [popen map join is_nil]. destruct nm as [|b r]; cbn [is_nil app]; rewrite <- ?app_assoc; cbn [app]; rewrite ?app_nil_r; reflexivity.
@@ -356,7 +361,7 @@ Qed.
 (* Check + Write on the expected core of a chain: the specification's walk (whatever the marks are) *)
 Lemma plog_pexp m hi nm msg w fs : wf_sflds fs = true ->
   forall c ch nn, wf_lcomp c = true -> wf_items ch = true ->
-  plog (mk_entry hi nm msg) hi w fs (pexp m c ch) nn = swalk m hi nm msg w fs c ch nn.
+  plog (mk_entry (lv hi) nm msg) hi w fs (pexp m c ch) nn = swalk m hi nm msg w fs c ch nn.
 Proof.
   intros Hfs.
   induction c as [co k|k|l IH|c IH|c IH|thr c IH|id lfs c IH] using lcomp_ind'; intros ch nn Hc Hch.
